@@ -461,6 +461,9 @@ class Evaluator:
             return ctx.const(snap(basix.cell.facet_outward_normals(ct)[ent][comp[0]]))
         if name == "CellFacetJacobian":
             return ctx.const(snap(basix.cell.facet_jacobians(ct)[ent][comp[0]][comp[1]]))
+        if name == "CellOrientation":
+            # the UFCx kernel signature carries no orientation input: the contract fixes +1
+            return self.one
         if name == "FacetOrientation":
             return ctx.const(-1.0 if basix.cell.facet_orientations(ct)[ent] else 1.0)
         geom = cell_geometry(self.cellname)
